@@ -252,6 +252,21 @@ fn run_case<C: Suite>(c: &Case) -> Outcome {
                     o.fail(format!("{tag}/CONTROL-handmade-proof-invalid"), format!("{ctx}: the harness's own proof construction is not accepted"));
                 } else {
                     r1_faults.push(("proof-for-negated-nonce-commitment".into(), d1::Package::new(sp.commitment().clone(), Signature::new(rpub, z)), Want::Exact));
+                    // proofs that satisfy the Schnorr equation for a challenge computed over ANOTHER layout of the
+                    // same fields (swapped, identifier dropped, nonce commitment dropped, identifier last)
+                    let idb = s.serialize();
+                    let rgood = el_bytes::<C>(&gen_mul::<C>(k)).unwrap();
+                    for (what, pre) in [
+                        ("swapped-fields", [idb.clone(), rgood.clone(), p0.clone()].concat()),
+                        ("without-identifier", [p0.clone(), rgood.clone()].concat()),
+                        ("without-nonce-commitment", [idb.clone(), p0.clone()].concat()),
+                        ("identifier-last", [p0.clone(), rgood.clone(), idb.clone()].concat()),
+                    ] {
+                        if let Some(c2) = C::HDKG(&pre) {
+                            let z2 = k + a.sp1[&s].coefficients()[0] * c2;
+                            r1_faults.push((format!("proof-with-challenge-over-{what}"), d1::Package::new(sp.commitment().clone(), Signature::new(gen_mul::<C>(k), z2)), Want::Exact));
+                        }
+                    }
                 }
             }
         }
